@@ -13,7 +13,10 @@ META = {
                  "through the real TableCreate / InsertRows / ReadRows handlers on a SQLite file",
     "text": "Theorem C18_roundtrip_partial: for column types int, bool, string, timestamp every representable value (integers of "
             "magnitude <= 2^53, both booleans, every string incl. quotes/Unicode/NUL/empty, every instant to the nanosecond) is "
-            "read back as the same value over the model of the repaired code; C18_int_refuted / C18_int_max_refuted: int values "
+            "read back as the same value over the model of the repaired code; C18_current_schema: after any history of create / "
+            "drop / write / read / schema-cache entry loss on one table name, a value written now is coerced and read with the "
+            "current table's column type (C18_stale_schema_refuted: not if only the write-side cache entry were evicted); "
+            "C18_int_refuted / C18_int_max_refuted: int values "
             "beyond 2^53 do not come back (JSON numbers pass through float64; the largest int64 comes back as the smallest) - "
             "confirmed on the real handlers and recorded; C18_old_refuted: the code before fix 333e4229 dropped the fractional "
             "second of timestamps - confirmed and repaired. partial: float32/float64, date and time-of-day columns, and the "
@@ -38,7 +41,8 @@ def gen_ints(rng, n):
 
 
 def gen_strings(rng, n):
-    out = ["", "hello", "it's \"quoted\" \\ back", "h\u00e9llo \u2603 \U0001d11e", "a\u0000b", "  pad  ", "line\nbreak\ttab",
+    out = ["", "hello", "C:\\temp\\", "tab\tand  two spaces after a value ending in a backslash", "\\", "a \\\\", "x\\\"",
+           "it's \"quoted\" \\ back", "h\u00e9llo \u2603 \U0001d11e", "a\u0000b", "  pad  ", "line\nbreak\ttab",
            "3fa85f64-5717-4562-b3fc-2c963f66afa6", "{\"a\":[1,2,{\"b\":null}]}", "'; DROP TABLE c18_string; --", "$1", "%s %d",
            "NULL", "true", "42", "1e3", "2024-03-01T12:30:45Z", "\u202e\u200b", "x" * 5000, "\ufffd", "\\u0041", "\"", "'", "''"]
     alpha = ["a", "Z", "0", " ", "'", "\"", "\\", "\n", "\t", "\u00e9", "\u4e2d", "\U0001f600", "%", "$", ";", "-", "\u0000", "\u007f"]
@@ -87,7 +91,9 @@ def run(ck):
     ck.cov["rule"] = ("one row per case through the real TableCreate/InsertRows/ReadRows handlers on a SQLite file: int (boundaries "
                       "around 2^31, 2^53, 2^63 + log-uniform), bool (literals and accepted spellings), string (quotes, backslash, NUL, "
                       "Unicode planes, SQL text, 5000 chars + random over a hostile alphabet), timestamp (RFC 3339 with offsets, "
-                      "fractions of 1 ns..0.5 s, years 1..9999), float64/float32, date, time by observation. distinct_nontrivial = "
+                      "fractions of 1 ns..0.5 s, years 1..9999), float64/float32, date, time by observation; every table read once more "
+                      "with all rows in one response; chains: one table name dropped and re-created with another column type "
+                      "between round trips. distinct_nontrivial = "
                       "distinct (type, value) cases that were stored and read back as one row")
     ck.assume("SQLite stores INTEGER / REAL / TEXT cells exactly and returns them unchanged",
               "time.Time.Format(RFC3339Nano) and the SQLite driver's parsing of TIMESTAMP text are inverse on UTC instants of years "
@@ -95,7 +101,8 @@ def run(ck):
               "Go float64 -> int conversion of an out-of-range value yields -2^63 (amd64)")
     ck.trusted("harness/C18/c18_test.go (in-package overlay), props/C18.py generators, RFC 3339 rendering/parsing in Python",
                "correspondence evaluated by vm_compute in a generated cases file")
-    ck.coq_stage(GROUP, theorems=["C18_roundtrip_partial", "C18_int_refuted", "C18_int_max_refuted", "C18_old_refuted"])
+    ck.coq_stage(GROUP, theorems=["C18_roundtrip_partial", "C18_current_schema", "C18_int_refuted", "C18_int_max_refuted", "C18_old_refuted",
+                                   "C18_stale_schema_refuted"])
 
     ok, binp = vf.go_test_build(ck.work, "internal/server/tables",
                                 {"internal/server/tables/zz_verif_c18_test.go": os.path.join(vf.HARNESS, "C18", "c18_test.go")}, "c18.test")
@@ -134,23 +141,71 @@ def run(ck):
         add("time", "\"2024-03-01T12:30:45Z\"", ("ts", 1709296245, 0, 0))
 
     inp, outp = os.path.join(ck.work, "in.json"), os.path.join(ck.work, "out.json")
+    # chains: one table name dropped and created again with another column type between round trips (the read side must
+    # coerce with the CURRENT table's column types, whatever an earlier table of that name looked like)
+    chains = []
+
+    def link(ty, raw, meta):
+        return {"id": 100000 + 100 * len(chains), "type": ty, "value": raw, "meta": meta}
+
+    def chain(*links):
+        for i, l in enumerate(links):
+            l["id"] += i
+        chains.append(list(links))
+
+    if not ck.replay_file or "chain" in rp:
+        fixed_chains = [
+            [("int", "7", ("int", 7)), ("string", "\"007\"", ("str", "007")), ("int", "12", ("int", 12))],
+            [("string", "\"plain text\"", ("str", "plain text")), ("timestamp", json.dumps(rfc3339(1709296245, 5000000, 0)), ("ts", 1709296245, 5000000, 0)),
+             ("string", "\"2024-03-01 is not a timestamp here\"", ("str", "2024-03-01 is not a timestamp here"))],
+            [("bool", "true", ("bool", True, "true")), ("string", "\"true\"", ("str", "true")), ("bool", "false", ("bool", False, "false"))],
+            [("timestamp", json.dumps(rfc3339(86400, 0, 0)), ("ts", 86400, 0, 0)), ("int", "86400", ("int", 86400)), ("string", "\"1e3\"", ("str", "1e3"))],
+        ]
+        if ck.replay_file:
+            fixed_chains = [[(t, v, tuple(m)) for t, v, m in rp["chain"]]]
+        for fc in fixed_chains:
+            chain(*[link(*x) for x in fc])
+        pool = [("int", lambda: (lambda z: (str(z), ("int", z)))(ck.rng.choice(ints[:24]) % TWO53)),
+                ("string", lambda: (lambda t: (json.dumps(t), ("str", t)))(ck.rng.choice(strs[:40] + ["007", "1.50", "true", "0x10", " 5"]))),
+                ("bool", lambda: (lambda b: ("true" if b else "false", ("bool", b, str(b))))(ck.rng.random() < 0.5)),
+                ("timestamp", lambda: (lambda i: (json.dumps(rfc3339(*i)), ("ts",) + tuple(i)))(ck.rng.choice(inst[:13])))]
+        for _ in range(0 if ck.replay_file else (4 if quick else 40)):
+            links, prev = [], None
+            for _ in range(ck.rng.randint(2, 4)):
+                ty, mk = ck.rng.choice([x for x in pool if x[0] != prev])
+                raw, meta = mk()
+                links.append(link(ty, raw, meta))
+                prev = ty
+            chain(*links)
+
+    def jcase(c):
+        return '{"id":%d,"type":%s,"value":%s}' % (c["id"], json.dumps(c["type"]), c["value"])
+
     with open(inp, "w") as f:     # values are raw JSON text: written by hand so that the spelling is exactly ours
-        f.write('{"cases":[' + ",".join('{"id":%d,"type":%s,"value":%s}' % (c["id"], json.dumps(c["type"]), c["value"]) for c in cases) + "]}")
+        f.write('{"cases":[' + ",".join(jcase(c) for c in cases) + '],"chains":[' +
+                ",".join("[" + ",".join(jcase(c) for c in ch) + "]" for ch in chains) + "]}")
     rc, log = vf.run_bin(binp, "^TestVerifC18$", {"VERIF_IN": inp, "VERIF_OUT": outp})
     if rc != 0 or not os.path.exists(outp):
         ck.violation("harness-run", "harness failed:\n" + log[-1500:], replay={"log": log[-3000:]}, found_input=False)
         return
-    outs = {o["id"]: o for o in json.load(open(outp))}
+    real = json.load(open(outp))
+    outs = {o["id"]: o for o in real["cases"]}
 
     # ---- property oracle on the real handlers
     nontriv, dist = set(), {}
     int_pairs, ts_rows = [], []
-    for c in cases:
-        o, meta = outs[c["id"]], c["meta"]
+    def judge(c, o, chain_replay=None):
+        meta = c["meta"]
+
+        def report(sig, msg, replay=None, found_input=True):
+            if chain_replay is not None:
+                sig, msg, replay = "recreated-table:" + sig, "table dropped and created again with another column type, " + msg, chain_replay
+            ck.violation(sig, msg, replay=replay, found_input=found_input)
+
         dist[c["type"]] = dist.get(c["type"], 0) + 1
         if o["err"] and o["insert"] == 0:
-            ck.violation("harness-setup", "case %s: %s" % (c, o["err"][:300]), replay={"log": o["err"]}, found_input=False)
-            continue
+            report("harness-setup", "case %s: %s" % (c, o["err"][:300]), replay={"log": o["err"]}, found_input=False)
+            return
         stored = o["insert"] == 200 and o["read"] == 200 and o["rows"] == 1
         if stored:
             nontriv.add((c["type"], c["value"]))
@@ -163,46 +218,87 @@ def run(ck):
         if meta[0] == "int":
             z = meta[1]
             got = int(o["back"]) if stored and re.fullmatch(r"-?\d+", o["back"] or "") else None
-            if c["type"] == "int":
+            if c["type"] == "int" and chain_replay is None:
                 int_pairs.append((z, got))
             if got != z:
                 if abs(z) > TWO53 and got is not None:
                     sig = "int-max-wraps-negative" if (z > 0) != (got > 0) else "int-beyond-2^53"
                 else:
                     sig = "int-roundtrip"
-                ck.violation(sig, "%s column: wrote %d, read back %s (insert %d, read %d, stored cell %s)" % (
+                report(sig, "%s column: wrote %d, read back %s (insert %d, read %d, stored cell %s)" % (
                     c["type"], z, o["back"] or "nothing", o["insert"], o["read"], o["stored"]), replay={"ints": [z]})
         elif meta[0] == "bool":
             if back is not meta[1]:
-                ck.violation("bool-roundtrip", "bool column: wrote %s, read back %s (status %d/%d)" % (meta[2], o["back"], o["insert"], o["read"]),
+                report("bool-roundtrip", "bool column: wrote %s, read back %s (status %d/%d)" % (meta[2], o["back"], o["insert"], o["read"]),
                              replay={"log": str(c)})
         elif meta[0] == "str":
             if back != meta[1]:
-                ck.violation("string-roundtrip", "string column: wrote %r, read back %r (status %d/%d, cell %s)" % (
+                report("string-roundtrip", "string column: wrote %r, read back %r (status %d/%d, cell %s)" % (
                     meta[1][:80], (o["back"] or "")[:80], o["insert"], o["read"], o["stored"][:80]), replay={"strings": [meta[1]]})
         elif meta[0] == "ts":
             got = parse_rfc3339(back) if isinstance(back, str) else None
-            if c["type"] == "timestamp":
+            if c["type"] == "timestamp" and chain_replay is None:
                 ts_rows.append((meta[1], meta[2], got))
             if got != (meta[1], meta[2]):
                 sig = "timestamp-subsecond-lost" if got and got[0] == meta[1] and got[1] == 0 else "timestamp-roundtrip"
-                ck.violation(sig, "%s column: wrote %s (instant %d s + %d ns), read back %s" % (
+                report(sig, "%s column: wrote %s (instant %d s + %d ns), read back %s" % (
                     c["type"], c["value"], meta[1], meta[2], o["back"] or "nothing"), replay={"instants": [list(meta[1:])]})
         elif meta[0] == "float":
             want = float(meta[1])
             if c["type"] == "float64" and (not isinstance(back, (int, float)) or float(back) != want):
-                ck.violation("float64-roundtrip", "float64 column: wrote %s, read back %s" % (meta[1], o["back"]), replay={"log": str(c)})
+                report("float64-roundtrip", "float64 column: wrote %s, read back %s" % (meta[1], o["back"]), replay={"log": str(c)})
             if c["type"] == "float32" and (not isinstance(back, (int, float)) or abs(float(back) - want) > abs(want) * 1e-6):
-                ck.violation("float32-roundtrip", "float32 column: wrote %s, read back %s" % (meta[1], o["back"]), replay={"log": str(c)})
+                report("float32-roundtrip", "float32 column: wrote %s, read back %s" % (meta[1], o["back"]), replay={"log": str(c)})
         elif meta[0] == "date":
             got = parse_rfc3339(back) if isinstance(back, str) else None
             if got != (meta[1], 0):
-                ck.violation("date-roundtrip", "date column: wrote %s, read back %s" % (c["value"], o["back"]), replay={"log": str(c)})
+                report("date-roundtrip", "date column: wrote %s, read back %s" % (c["value"], o["back"]), replay={"log": str(c)})
         elif meta[0] == "tod":
             if not (isinstance(back, str) and meta[1] in back):
-                ck.violation("time-of-day-misparsed", "time column: wrote %s, read back %s (stored cell %s)" % (
+                report("time-of-day-misparsed", "time column: wrote %s, read back %s (stored cell %s)" % (
                     c["value"], o["back"] or "nothing", o["stored"]), replay={"log": str(c)})
-    ck.cov["evaluations"] = len(cases)
+
+    for c in cases:
+        judge(c, outs[c["id"]])
+
+    # the same rows once more, all rows of a table in ONE response: every value must be what the single-row read gave
+    # (strings: what was written)
+    nall = 0
+    for ty, msg in real.get("all_err", {}).items():
+        ck.violation("all-rows-read", "reading all rows of the %s table failed: %s" % (ty, msg[:300]), replay={"log": msg}, found_input=False)
+    for c in cases:
+        o = outs[c["id"]]
+        if not (o["insert"] == 200 and o["read"] == 200 and o["rows"] == 1) or c["type"] not in real.get("all", {}):
+            continue
+        nall += 1
+        got = real["all"][c["type"]].get("case%d" % c["id"])
+        want = json.dumps(c["meta"][1]) if c["meta"][0] == "str" else o["back"]
+        try:
+            same = got is not None and json.loads(got) == json.loads(want)
+        except ValueError:
+            same = False
+        if not same:
+            later = [x["meta"][1] for x in cases if x["type"] == c["type"] and x["meta"][0] == "str"]
+            ck.violation("multi-row-read", "%s column, all rows read in one response: row case%d holds %s but the response carries %s" % (
+                c["type"], c["id"], want[:80], (got or "nothing")[:80]),
+                replay={"strings": later[:later.index(c["meta"][1]) + 1] if c["meta"][0] == "str" else [], "log": str(c)[:300]})
+            break
+
+    nchain, chain_flags = 0, []
+    for ch, res in zip(chains, real.get("chains", [])):
+        rep = {"chain": [[c["type"], c["value"], list(c["meta"])] for c in ch]}
+        if len(res) != len(ch):
+            ck.violation("harness-chain", "chain %s stopped early: %s" % (rep, res[-1]["err"][:300] if res else ""), replay=rep, found_input=False)
+            continue
+        flags = []
+        for c, o in zip(ch, res):
+            nchain += 1
+            dist["recreated:" + c["type"]] = dist.get("recreated:" + c["type"], 0) + 1
+            before = len(ck.viol)
+            judge(c, o, rep)
+            flags.append(1 if len(ck.viol) == before else 0)
+        chain_flags.append((ch, flags))
+    ck.cov["evaluations"] = len(cases) + nall + nchain
     ck.cov["distinct_nontrivial"] = len(nontriv)
     ck.cov["input_distribution"] = dict(dist, ints_beyond_2_53=sum(1 for z in ints if abs(z) > TWO53),
                                         instants_with_fraction=sum(1 for i in inst if i[1]), instants_with_offset=sum(1 for i in inst if i[2]))
@@ -222,13 +318,41 @@ def run(ck):
            "Definition icases : list (Z * Z) := [%s]." % ";".join("(%s,%s)" % (("(%d)" % a), ("(%d)" % b)) for a, b in ip),
            "Definition tcases : list (Z * Z * (Z * Z)) := [%s]." % ";".join(
                "((%d),%d,((%d),%d))" % (s, nn, g[0], g[1]) for s, nn, g in tp)]
+    TY = {"int": "TInt", "string": "TStr", "bool": "TBool", "timestamp": "TTs"}
+
+    def vval(meta):
+        if meta[0] == "int":
+            return "VInt (%d)" % meta[1]
+        if meta[0] == "bool":
+            return "VBool %s" % ("true" if meta[1] else "false")
+        if meta[0] == "str":
+            return "VStr %s" % vf.vrunes(meta[1])
+        return "VTs (%d) %d" % (meta[1], meta[2])
+
+    mchains = [(ch, fl) for ch, fl in chain_flags if all(c["type"] in TY for c in ch)]
+    pre.append("Definition chains : list (list top * list Z) := [%s]." % ";\n".join(
+        "([%s], %s)" % ("; ".join(("TDrop; " if i else "") + "TCreate %s; TWrite (%s); TRead" % (TY[c["type"]], vval(c["meta"]))
+                                  for i, c in enumerate(ch)), vf.vZ(fl)) for ch, fl in mchains))
+    pre.append("Fixpoint zl_eqb (a b : list Z) : bool := match a, b with [], [] => true | x :: a', y :: b' => (x =? y) && zl_eqb a' b' "
+               "| _, _ => false end.")
+    pre.append("Fixpoint bad_chains (p : bool) (l : list (list top * list Z)) (i : nat) : list nat := match l with [] => [] | (h, w) :: r => "
+               "if zl_eqb (chain_reads p tinit None h) w then bad_chains p r (S i) else i :: bad_chains p r (S i) end.")
     ok, res = vf.coq_eval(GROUP, ck.work, "cases", "\n".join(pre),
-                          {"ints": "bad_ints icases 0", "ts": "bad_ts true tcases 0", "tsold": "bad_ts false tcases 0"})
+                          {"ints": "bad_ints icases 0", "ts": "bad_ts true tcases 0", "tsold": "bad_ts false tcases 0",
+                           "chains": "bad_chains true chains 0", "chainsold": "bad_chains false chains 0"})
     if not ok:
         ck.violation("correspondence-eval", "model evaluation failed:\n" + res[-1500:], replay={"log": res[-3000:]}, found_input=False)
         return
     ck.cov["traces_validated_against_impl"] = len(ip) + len(tp) - len(res["ints"]) - len(res["ts"])
     ck.cov["input_distribution"]["instants_where_old_model_differs"] = len(res["tsold"])
+    ck.cov["traces_validated_against_impl"] += len(mchains) - len(res["chains"])
+    ck.cov["input_distribution"]["chains"] = len(chains)
+    ck.cov["input_distribution"]["chains_where_stale_cache_model_differs"] = len(res["chainsold"])
+    if not any(v["signature"].startswith("recreated-table") for v in ck.viol):
+        for i in res["chains"]:
+            ck.violation("corr-chain", "model and implementation disagree on the chain %s: real per-step 'read back what was written' flags %s" % (
+                [(c["type"], c["value"]) for c in mchains[i][0]], mchains[i][1]),
+                replay={"chain": [[c["type"], c["value"], list(c["meta"])] for c in mchains[i][0]]}, found_input=False)
     for i in res["ints"]:
         ck.violation("corr-int", "model and implementation disagree on int %d: real read back %d" % ip[i], replay={"ints": [ip[i][0]]},
                      found_input=False)
